@@ -13,6 +13,30 @@ NOT_APPLICABLE = {
     # pid: reason   (filled when a claim is withdrawn)
 }
 
+
+TECHNIQUE = {
+    "C01": ("strong", "static analysis: DFA language equality (product construction) of the two literal transition tables against the documented automaton; must-pass-through path enumeration of the lifecycle functions; callback wiring and mirror substitution over the AST; exact-key lookup lint (STEP-KEY)"),
+    "C02": ("thin", "static analysis: sibling cross-check of the three compute_cost_volume implementations on canonical ASTs, measure/constant tables, predicate complement by finite sign tables, as_strided stride/extent consistency, band-index ownership dataflow, sibling contradiction rule (dimension test vs band lookup)"),
+    "C03": ("strong", "static analysis: substitution/restore pairing on enumerated paths, all-NaN predicate, block-cursor discipline of the chunk loops, effect summaries (who may write the cost volume)"),
+    "C04": ("partial", "static analysis: flag-typed dataflow through the call graph; per-store proofs for flag arithmetic (|= idempotent, += only on provably clear bits, -= only on provably set bits); bit table and who-may-raise matrix; predicate symmetry of criteria.validity_mask"),
+    "C05": ("strong", "static analysis: defaults table extraction; json_checker 2.0.0 model with representative-per-cell evaluation of every schema predicate against the specified domain; effect summaries for 'user dict not mutated'; shared-schema override discipline"),
+    "C06": ("partial", "static analysis: guard structure of the refinement loop and of the two method kernels (sibling agreement), division guards, flag-store proofs; numeric bound of the sub-pixel shift not decided"),
+    "C07": ("strong", "static analysis: predicate complement/equivalence (inside/outside, threshold), rounding and NaN->inf obligations on expanded def-use chains, flag-store proofs, effect summaries (disparity map never written)"),
+    "C08": ("strong", "static analysis: left<->right mirror substitution equality of the two passes of every run callback, negate-and-swap of the right interval, gating of right products (who-may-store)"),
+    "C09": ("thin", "static analysis: axis/index inverse pair (plane k <-> dmin + k/subpix) on canonical polynomials, comparator forms of the interval masking, label-based reads of the disparity bands; equality of nested-interval volumes not decided"),
+    "C10": ("partial", "static analysis: who-may-write matrix from effect summaries, masked-store dominance, kernel copy/restore obligations, block-cursor discipline, as_strided consistency, parity domain for window sizes; the filtered value itself not decided"),
+    "C11": ("thin", "static analysis: template agreement of the four arm loops, arm pairing in the four aggregation steps, NaN idiom, statelessness of step objects, effect summaries; integral-image arithmetic not decided"),
+    "C12": ("partial", "static analysis: append bookkeeping of confidence bands on canonical ASTs, band-name table, NaN-mask idiom, definitions compared as canonical expressions, prange schedule-independence; inequalities between values not decided"),
+    "C13": ("thin", "static analysis: affine-space typing (coordinate/index/displacement) of every function reading row/col coordinates, position-parity lint, parity domain for window sizes, dtype domain for running sums, borrowed relative-access rules; crop/flip equality of values not decided"),
+    "C14": ("partial", "static analysis: gating of fills on flagged pixels, flag exchange proofs, found-gate dominance, bounds complement, symmetry of literal direction tables, effect summaries (outputs are copies); scan geometry beyond the table symmetry not decided"),
+    "C15": ("partial", "static analysis: configuration-level typing of every cfg argument across calls, registry-instantiation arity, pyramid/scaling def-use and mirror, block cursors and dtype of the range maps, per-scale driver loop; pyramid contents not decided"),
+    "C16": ("partial", "static analysis: branch ordering and precedence on enumerated paths of create_dataset_from_inputs/add_mask/add_no_data, comparator forms, row/col symmetry of the ROI window, band labels; raster round trips not decided"),
+    "C17": ("strong", "static analysis: must-call sets of the input checkers on enumerated paths, decision table over input kinds, comparator forms of shape/dtype tests"),
+    "C18": ("strong", "static analysis: prange write-disjointness (W/R/S rules), shared mutable container discipline, definite assignment of per-run machine attributes, effect summaries for the caller's datasets and cfg, statelessness of 112 step methods, parallel switch lint"),
+    "C19": ("partial", "static analysis: writer table of save_results against the documented products, left/right symmetry of the writer calls, writer/reader agreement between the saved configuration and the input schema; GeoTIFF encoding not decided"),
+    "C20": ("strong", "static analysis: margin descriptor table extraction and constant evaluation, registration sites per callback, combination (max / cumulative sum) on canonical ASTs"),
+}
+
 LEVEL_TEXT = {}  # pid -> text, taken from the module (CLAIM) when present
 
 props = [json.loads(l) for l in open("/verif/properties.jsonl")]
@@ -42,7 +66,7 @@ for p in props:
                 "category": "other",
                 "text": claim.get(
                     "text",
-                    "Static analysis of /repo's current source (no execution): " + spec.explanation[:900],
+                    f"[{TECHNIQUE[pid][0]} claim] Static analysis of /repo's current source (no execution): " + spec.explanation[:900],
                 ),
                 "design_ref": f"DESIGN.md section 4, {pid}",
             },
@@ -52,7 +76,7 @@ for p in props:
                 "'not_decided' are numerical/relational and are NOT decided. Trusted base: Python semantics as modelled by the engine, the "
                 "library models listed under trusted_base, the specification tables in /verif/spec.",
             ),
-            "technique": claim.get("technique", "static analysis: custom AST/CFG/dataflow rules over the repository source"),
+            "technique": claim.get("technique", TECHNIQUE[pid][1]),
         }
     )
 
@@ -75,7 +99,7 @@ m = {
         }
     ],
     "checks": checks,
-    "notes": "All checks are static (they parse /repo and never import or execute it). Exit 0 holds / 1 VIOLATION / 2 ANALYSIS-ERROR (checker cannot see the property any more; never printed as VIOLATION). Genuine defects repaired by fix: commits and the known finding K1 are listed in /verif/known_findings.json.",
+    "notes": "All checks are static (they parse /repo and never import or execute it). Exit 0 holds / 1 VIOLATION / 2 ANALYSIS-ERROR (checker cannot see the property any more; never printed as VIOLATION). Genuine defects repaired by fix: commits and the known findings K1, K2 are listed in /verif/known_findings.json.",
     "not_applicable": na,
 }
 json.dump(m, open("/verif/MANIFEST.json", "w"), indent=1)
